@@ -790,6 +790,33 @@ fn run_convert(spec: &Spec, r: &mut CaseResult) {
         for (cls, d) in diff(&want, &cb, "tile before", "converted tile") {
             cx.viol(format!("conversion {} {cls}", dir(a, b)), format!("[{stage}] {d}"));
         }
+        // the converted tile is a parsed tile like any other: re-serialising it (no target version)
+        // must neither grow the file nor change the content, on both rebuild paths
+        let full_b = root_content(&pb);
+        let rep_b = walker::inspect(&bytes_b);
+        for path in ["from_root_adt", "from_parsed"] {
+            let rebuilt = if path == "from_root_adt" { BuiltAdt::from_root_adt(pb.clone(), None).to_bytes().ok() } else { AdtBuilder::from_parsed(pb.clone()).build().and_then(|x| x.to_bytes()).ok() };
+            let Some(bytes_r) = rebuilt else {
+                cx.r.count("rebuild_refused", 1);
+                continue;
+            };
+            let stage_r = format!("{stage}, then {path}");
+            cx.r.count("rounds_run", 1);
+            let rep_r = cx.walk(&bytes_r, &stage_r);
+            if bytes_r.len() > bytes_b.len() {
+                for (sy, d) in growth_symptoms(&rep_b, &rep_r) {
+                    cx.viol(format!("after a version conversion: {sy}"), format!("[{stage_r}] file {} -> {} bytes; {d}", bytes_b.len(), bytes_r.len()));
+                }
+            }
+            match parse(&bytes_r) {
+                Ok(pr) => {
+                    for (cls, d) in diff(&full_b, &root_content(&pr), "converted tile", "tile after") {
+                        cx.viol(format!("after a version conversion: re-parse after re-serialisation {cls}"), format!("[{stage_r}] {d}"));
+                    }
+                }
+                Err(e) => cx.viol(format!("parse_adt rejects a re-serialised converted tile: {}", err_class(&e)), format!("[{stage_r}] {} bytes; error: {}", bytes_r.len(), e)),
+            }
+        }
         // and back to the version the tile was built for
         let stage = format!("convert {} -> {} -> {}", VERSIONS[a].0, VERSIONS[b].0, VERSIONS[a].0);
         let Ok(bytes_ba) = BuiltAdt::from_root_adt(pb, Some(VERSIONS[a].1)).to_bytes() else {
@@ -1049,7 +1076,7 @@ fn main() {
         "builder inputs = all specs with <= {dmin} deviations from the minimal baseline and <= {dfull} from the version-adjusted full baseline over {} sites ({} site values in total) x 6 target versions (VanillaEarly..MoP), canonicalised (sites without effect reset) and de-duplicated{}; per case: build -> to_bytes -> independent walker -> parse_adt -> content comparison with the input, then {ROUNDS} rounds of parse -> rebuild -> to_bytes on two rebuild paths (BuiltAdt::from_root_adt(root, None) and AdtBuilder::from_parsed(root).build()), every produced file walked. A case is non-trivial when the builder accepted it and a file was produced; distinct by (version, site vector).",
         NSITES,
         SITES.iter().map(|s| s.vals.len()).sum::<usize>(),
-        if tier == Tier::Quick { "; 256 populated MCNK within <= 2 deviations of the minimal and <= 1 of the full baseline".to_string() } else { format!("; thorough adds a third baseline (full with staggered sub-chunk presence: sub-chunk k present on chunk i iff (i+k) even) with the same deviation bound as full, 256 populated MCNK there only within <= 2 deviations; with 3 deviations, inputs that the builder documents as refused are not enumerated again. The sites of space main use their core values ({} values). Thorough-only spaces over the extended alphabet ({} values: name lists of 300 names / > 65535 bytes, multi-byte UTF-8 names, 1821 doodad and 1025 WMO placements (> 65535 bytes), 3/17/255/257 terrain chunks, 2 and 3 layers, 3-byte alpha maps, 40 sound emitters, WMO-only and 150 references, ocean/slime/flat legacy liquid, all 8 subsets of MCMT/MCDD/MCBB, chunk flags impassable+do-not-fix-alpha and high-res holes with a hole bitmap, water on all 256 chunks / attributes-only entry / 1-entry list, 3-layer and 64-bit-bitmap water, MTXF/MTXP counts differing from the texture count, 1-batch and > 65535-byte blend meshes): ext = all specs with <= 2 deviations from the three baselines with at least one extended value; chunks = full product of {} per-chunk sites ({} combinations, 256 consecutive combinations on the 256 terrain chunks of one tile, {} tiles) x 6 versions, top level at the full baseline, 2 rounds; top_names = full product textures x models x doodads x wmos x wmo_placements x flight_bounds x water(none, chunk 0) x 6 versions; top_chunks = full product textures(1, 3) x flight_bounds x mtxf(4) x mamp x mtxp(3) x blend_mesh(4) x water set(8) x water format(10) x 6 versions with one terrain chunk, and the same product with one water format and the 256 terrain chunks the serialiser generates, all without the combinations documented as refused, 3 rounds on three rebuild paths (the third alternates from_root_adt and from_parsed); convert = the three baselines with <= 1 deviation over the whole alphabet, and the full baseline with 2 deviations among the top-level sites, x 6 versions: BuiltAdt::from_root_adt(root, Some(v)) for all 6 v and back to the built version (every file walked; content compared for the sections that exist in the oldest version of the chain; all-zero MFBO / MTXF added by a conversion not judged), then AdtBuilder::from_parsed(root) + add_texture/add_model/add_wmo/add_mcnk_chunk -> build -> to_bytes -> walk -> parse == parsed content plus the additions", SITES.iter().map(|s| s.core).sum::<usize>(), SITES.iter().map(|s| s.vals.len()).sum::<usize>(), CHUNK_PRODUCT.len(), chunk_product_len(), chunk_product_len().div_ceil(256)) }
+        if tier == Tier::Quick { "; 256 populated MCNK within <= 2 deviations of the minimal and <= 1 of the full baseline".to_string() } else { format!("; thorough adds a third baseline (full with staggered sub-chunk presence: sub-chunk k present on chunk i iff (i+k) even) with the same deviation bound as full, 256 populated MCNK there only within <= 2 deviations; with 3 deviations, inputs that the builder documents as refused are not enumerated again. The sites of space main use their core values ({} values). Thorough-only spaces over the extended alphabet ({} values: name lists of 300 names / > 65535 bytes, multi-byte UTF-8 names, 1821 doodad and 1025 WMO placements (> 65535 bytes), 3/17/255/257 terrain chunks, 2 and 3 layers, 3-byte alpha maps, 40 sound emitters, WMO-only and 150 references, ocean/slime/flat legacy liquid, all 8 subsets of MCMT/MCDD/MCBB, chunk flags impassable+do-not-fix-alpha and high-res holes with a hole bitmap, water on all 256 chunks / attributes-only entry / 1-entry list, 3-layer and 64-bit-bitmap water, MTXF/MTXP counts differing from the texture count, 1-batch and > 65535-byte blend meshes): ext = all specs with <= 2 deviations from the three baselines with at least one extended value; chunks = full product of {} per-chunk sites ({} combinations, 256 consecutive combinations on the 256 terrain chunks of one tile, {} tiles) x 6 versions, top level at the full baseline, 2 rounds; top_names = full product textures x models x doodads x wmos x wmo_placements x flight_bounds x water(none, chunk 0) x 6 versions; top_chunks = full product textures(1, 3) x flight_bounds x mtxf(4) x mamp x mtxp(3) x blend_mesh(4) x water set(8) x water format(10) x 6 versions with one terrain chunk, and the same product with one water format and the 256 terrain chunks the serialiser generates, all without the combinations documented as refused, 3 rounds on three rebuild paths (the third alternates from_root_adt and from_parsed); convert = the three baselines with <= 1 deviation over the whole alphabet, and the full baseline with 2 deviations among the top-level sites, x 6 versions: BuiltAdt::from_root_adt(root, Some(v)) for all 6 v, one plain re-serialisation of every converted tile on both rebuild paths (no growth, same content), and back to the built version (every file walked; content compared for the sections that exist in the oldest version of the chain; all-zero MFBO / MTXF added by a conversion not judged), then AdtBuilder::from_parsed(root) + add_texture/add_model/add_wmo/add_mcnk_chunk -> build -> to_bytes -> walk -> parse == parsed content plus the additions", SITES.iter().map(|s| s.core).sum::<usize>(), SITES.iter().map(|s| s.vals.len()).sum::<usize>(), CHUNK_PRODUCT.len(), chunk_product_len(), chunk_product_len().div_ceil(256)) }
     );
     c.assume("content equality is judged on a canonical byte rendering of every section (floats by bit pattern); derived fields are excluded: MCNK header offsets/sizes/n_layers/n_snd_emitters, MCNR trailing padding, MH2O header/instance offsets and layer_count, MHDR/MCIN/MMID/MWID (checked by the walker instead); an empty section equals an absent one");
     c.assume("detected version is not content: version detection from chunk presence may legitimately report an older version when no newer chunk is present (counted, not judged); content lost because of it is judged");
@@ -1094,7 +1121,7 @@ fn main() {
                 "chunks": {"product_axes": prod(&CHUNK_PRODUCT), "combinations": chunk_product_len(), "tiles_per_version": chunk_product_len().div_ceil(256), "versions": 6, "rounds": 2, "rebuild_paths": 2},
                 "top_names": {"product_axes": prod(&TOP_NAMES), "versions": 6, "rounds": ROUNDS, "rebuild_paths": 3},
                 "top_chunks": {"product_axes": prod(&TOP_CHUNKS), "product_axes_auto256": prod(&TOP_CHUNKS_AUTO), "versions": 6, "rounds": ROUNDS, "rebuild_paths": 3},
-                "convert": {"baselines": 3, "max_deviations": 1, "max_top_level_deviations_from_full": 2, "versions": 6, "target_versions": 6, "chain": "A->B, A->B->A, load-modify-save"},
+                "convert": {"baselines": 3, "max_deviations": 1, "max_top_level_deviations_from_full": 2, "versions": 6, "target_versions": 6, "chain": "A->B, A->B->rebuild, A->B->A, load-modify-save"},
             }),
         );
     }
